@@ -68,6 +68,83 @@ def run(p, report, tier):
             why = "no store on the path where: " + describe(ma.missing[0].facts)
         report.add("R17.1", f.qual, f"`{rname}[{L.target.id}]` stored on every path of `{norm_stmt(L, 50)}`",
                    f"{f.file}:{L.lineno}", ok, detail=why)
+    # R17.1b: what is stored is the computed matrix (or a normalisation of it)
+    cms = set()
+    for n in ast.walk(f.node):
+        if isinstance(n, ast.Assign) and isinstance(n.value, ast.Call) and c01.callname(n.value) == "confusion_matrix":
+            cms |= {t.id for t in n.targets if isinstance(t, ast.Name)}
+    fedges = dep_edges(f.node.body)
+    for n in ast.walk(f.node):
+        if isinstance(n, ast.Assign) and any(isinstance(t, ast.Subscript) and base_name(t) == rname for t in n.targets):
+            back = closure(names_in(n.value), fedges)
+            ok = bool(back & cms) or bool(names_in(n.value) & cms)
+            report.add("R17.1", f.qual, f"`{norm_stmt(n, 70)}` stores the counted matrix", f"{f.file}:{n.lineno}", ok,
+                       detail="derived from sklearn's confusion_matrix of the annotator" if ok else
+                       "a value that does not derive from the annotator's confusion counts is written into the result")
+    check_vote_weights(p, report)
+    # ---------------- R17.3
+    h = p.get_func("skactiveml.utils._aggregation", "majority_vote")
+    htree = FuncTree(h.node)
+    hret = [n for n in ast.walk(h.node) if isinstance(n, ast.Return) and isinstance(n.value, ast.Name)]
+    if not hret:
+        raise AnalysisError("majority_vote: return vanished")
+    res = hret[0].value.id
+    allocs = [n for n in ast.walk(h.node) if isinstance(n, ast.Assign)
+              and any(isinstance(t, ast.Name) and t.id == res for t in n.targets)]
+    ok_alloc = bool(allocs) and all(
+        isinstance(a.value, ast.Call) and c01.callname(a.value) == "full" and len(a.value.args) >= 2
+        and isinstance(a.value.args[1], ast.Name) and a.value.args[1].id == "missing_label" for a in allocs)
+    report.add("R17.3", h.qual, f"result `{res}` created filled with the sentinel", f"{h.file}:{h.node.lineno}", ok_alloc,
+               detail="np.full(..., missing_label, ...)" if ok_alloc else "result is not allocated filled with missing_label")
+    lab_masks = set()
+    for n in ast.walk(h.node):
+        if isinstance(n, ast.Assign) and any(isinstance(c, ast.Call) and c01.callname(c) == "is_labeled"
+                                             and _forwards(c, "missing_label") for c in ast.walk(n.value)):
+            for t in n.targets:
+                if isinstance(t, ast.Name):
+                    lab_masks.add(t.id)
+    stores = [n for n in ast.walk(h.node) if isinstance(n, ast.Assign)
+              and any(isinstance(t, ast.Subscript) and base_name(t) == res for t in n.targets)]
+    ok_st = bool(stores) and all(index_names(s.targets[0]) and index_names(s.targets[0]) <= lab_masks for s in stores)
+    report.add("R17.3", h.qual, f"`{res}` written only under the has-a-label mask", f"{h.file}:{h.node.lineno}", ok_st,
+               detail=f"{len(stores)} store(s), masks {sorted(lab_masks)}")
+    # value chain rand_argmax(compute_vote_vectors(...), axis=1) -> inverse_transform -> store
+    locs = local_names(h.node) | set(h.all_param_names())
+    edges = dep_edges(h.node.body)
+    sel = [n for n in ast.walk(h.node) if isinstance(n, ast.Call) and c01.callname(n) == "rand_argmax"]
+    ok_chain = False
+    why = "no rand_argmax over the vote matrix"
+    if sel and stores:
+        s0 = sel[0]
+        opn = names_in(s0.args[0]) if s0.args else set()
+        votes = any(isinstance(n, ast.Assign) and isinstance(n.value, ast.Call) and c01.callname(n.value) == "compute_vote_vectors"
+                    and any(isinstance(t, ast.Name) and t.id in opn for t in n.targets) for n in ast.walk(h.node))
+        axis1 = any(k.arg == "axis" and isinstance(k.value, ast.Constant) and k.value.value == 1 for k in s0.keywords)
+        back = closure(names_in(stores[0].value), edges)
+        selres = set()
+        for n in ast.walk(h.node):
+            if isinstance(n, ast.Assign) and any(x is s0 for x in ast.walk(n.value)):
+                selres |= {t.id for t in n.targets if isinstance(t, ast.Name)}
+        decoded = any(isinstance(n, ast.Call) and c01.callname(n) == "inverse_transform" and (names_in(n) & selres)
+                      for n in ast.walk(h.node))
+        ok_chain = votes and axis1 and bool(selres & back) and decoded
+        why = f"votes={votes} axis1={axis1} flows={bool(selres & back)} decoded={decoded}"
+    report.add("R17.3", h.qual, "stored value = inverse_transform(rand_argmax(vote matrix, axis=1))", f"{h.file}:{h.node.lineno}",
+               ok_chain, detail=why)
+    okf = any(isinstance(c, ast.Call) and c01.callname(c) == "is_labeled" and _forwards(c, "missing_label")
+              for c in ast.walk(h.node))
+    report.add("R17.3", h.qual, "is_labeled receives the caller's sentinel", f"{h.file}:{h.node.lineno}", okf)
+    # ---------------- definite assignment
+    g = p.get_func("skactiveml.utils._aggregation", "compute_vote_vectors")
+    for fn in (f, g, h):
+        da = DefiniteAssignment(fn.node).run()
+        report.add("R1.7", fn.qual, "all locals bound before use", f"{fn.file}:{fn.node.lineno}", not da.reports,
+                   detail="; ".join(f"{k} unbound" for k in da.reports))
+    report.assumptions += ["sklearn.metrics.confusion_matrix and np.bincount are trusted to count",
+                           "equality with the counting specification as numbers is not decided"]
+
+
+def check_vote_weights(p, report):
     # ---------------- R17.2
     g = p.get_func("skactiveml.utils._aggregation", "compute_vote_vectors")
     tree = FuncTree(g.node)
@@ -137,65 +214,6 @@ def run(p, report, tier):
     report.add("R17.2", g.qual, "missing mask = is_unlabeled(encoded labels, -1)", f"{g.file}:{g.node.lineno}", okm,
                detail="mask computed on the encoder's output with the encoder's sentinel" if okm else
                "mask is not computed on the encoded labels with sentinel -1")
-    # ---------------- R17.3
-    h = p.get_func("skactiveml.utils._aggregation", "majority_vote")
-    htree = FuncTree(h.node)
-    hret = [n for n in ast.walk(h.node) if isinstance(n, ast.Return) and isinstance(n.value, ast.Name)]
-    if not hret:
-        raise AnalysisError("majority_vote: return vanished")
-    res = hret[0].value.id
-    allocs = [n for n in ast.walk(h.node) if isinstance(n, ast.Assign)
-              and any(isinstance(t, ast.Name) and t.id == res for t in n.targets)]
-    ok_alloc = bool(allocs) and all(
-        isinstance(a.value, ast.Call) and c01.callname(a.value) == "full" and len(a.value.args) >= 2
-        and isinstance(a.value.args[1], ast.Name) and a.value.args[1].id == "missing_label" for a in allocs)
-    report.add("R17.3", h.qual, f"result `{res}` created filled with the sentinel", f"{h.file}:{h.node.lineno}", ok_alloc,
-               detail="np.full(..., missing_label, ...)" if ok_alloc else "result is not allocated filled with missing_label")
-    lab_masks = set()
-    for n in ast.walk(h.node):
-        if isinstance(n, ast.Assign) and any(isinstance(c, ast.Call) and c01.callname(c) == "is_labeled"
-                                             and _forwards(c, "missing_label") for c in ast.walk(n.value)):
-            for t in n.targets:
-                if isinstance(t, ast.Name):
-                    lab_masks.add(t.id)
-    stores = [n for n in ast.walk(h.node) if isinstance(n, ast.Assign)
-              and any(isinstance(t, ast.Subscript) and base_name(t) == res for t in n.targets)]
-    ok_st = bool(stores) and all(index_names(s.targets[0]) and index_names(s.targets[0]) <= lab_masks for s in stores)
-    report.add("R17.3", h.qual, f"`{res}` written only under the has-a-label mask", f"{h.file}:{h.node.lineno}", ok_st,
-               detail=f"{len(stores)} store(s), masks {sorted(lab_masks)}")
-    # value chain rand_argmax(compute_vote_vectors(...), axis=1) -> inverse_transform -> store
-    locs = local_names(h.node) | set(h.all_param_names())
-    edges = dep_edges(h.node.body)
-    sel = [n for n in ast.walk(h.node) if isinstance(n, ast.Call) and c01.callname(n) == "rand_argmax"]
-    ok_chain = False
-    why = "no rand_argmax over the vote matrix"
-    if sel and stores:
-        s0 = sel[0]
-        opn = names_in(s0.args[0]) if s0.args else set()
-        votes = any(isinstance(n, ast.Assign) and isinstance(n.value, ast.Call) and c01.callname(n.value) == "compute_vote_vectors"
-                    and any(isinstance(t, ast.Name) and t.id in opn for t in n.targets) for n in ast.walk(h.node))
-        axis1 = any(k.arg == "axis" and isinstance(k.value, ast.Constant) and k.value.value == 1 for k in s0.keywords)
-        back = closure(names_in(stores[0].value), edges)
-        selres = set()
-        for n in ast.walk(h.node):
-            if isinstance(n, ast.Assign) and any(x is s0 for x in ast.walk(n.value)):
-                selres |= {t.id for t in n.targets if isinstance(t, ast.Name)}
-        decoded = any(isinstance(n, ast.Call) and c01.callname(n) == "inverse_transform" and (names_in(n) & selres)
-                      for n in ast.walk(h.node))
-        ok_chain = votes and axis1 and bool(selres & back) and decoded
-        why = f"votes={votes} axis1={axis1} flows={bool(selres & back)} decoded={decoded}"
-    report.add("R17.3", h.qual, "stored value = inverse_transform(rand_argmax(vote matrix, axis=1))", f"{h.file}:{h.node.lineno}",
-               ok_chain, detail=why)
-    okf = any(isinstance(c, ast.Call) and c01.callname(c) == "is_labeled" and _forwards(c, "missing_label")
-              for c in ast.walk(h.node))
-    report.add("R17.3", h.qual, "is_labeled receives the caller's sentinel", f"{h.file}:{h.node.lineno}", okf)
-    # ---------------- definite assignment
-    for fn in (f, g, h):
-        da = DefiniteAssignment(fn.node).run()
-        report.add("R1.7", fn.qual, "all locals bound before use", f"{fn.file}:{fn.node.lineno}", not da.reports,
-                   detail="; ".join(f"{k} unbound" for k in da.reports))
-    report.assumptions += ["sklearn.metrics.confusion_matrix and np.bincount are trusted to count",
-                           "equality with the counting specification as numbers is not decided"]
 
 
 def _forwards(call, pname):
